@@ -7,6 +7,7 @@ import (
 	"sort"
 	"strings"
 	"unicode/utf16"
+	"unicode/utf8"
 
 	"github.com/dlclark/regexp2/v2"
 	"github.com/dop251/goja/unistring"
@@ -377,6 +378,10 @@ func (r *regexp2Wrapper) findAllSubmatchIndexUTF16(s String, start, limit int, s
 				break
 			}
 			start = result.indexes[1]
+			if result.indexes[1] == result.indexes[0] {
+				// after an empty match the next one must start at AdvanceStringIndex(lastIndex)
+				start++
+			}
 		}
 
 		results = append(results, result)
@@ -463,6 +468,15 @@ func (r *regexp2Wrapper) findAllSubmatchIndexUnicode(s unicodeString, start, lim
 				break
 			}
 			start = result.indexes[1]
+			if result.indexes[1] == result.indexes[0] {
+				// after an empty match the next one must start at AdvanceStringIndex(lastIndex),
+				// i.e. at the next code point
+				if next := groups[0].RuneIndex + 1; next < len(posMap) {
+					start = posMap[next]
+				} else {
+					start++
+				}
+			}
 		}
 
 		results = append(results, result)
@@ -506,6 +520,14 @@ func (r *regexpWrapper) findAllSubmatchIndex(s string, limit int, sticky bool) [
 					return results[:i]
 				}
 				pos = result.indexes[1]
+				if result.indexes[1] == result.indexes[0] {
+					// after an empty match the next one must start at the next code point
+					if _, size := utf8.DecodeRuneInString(s[pos:]); size > 0 {
+						pos += size
+					} else {
+						pos++
+					}
+				}
 			}
 		}
 	}
